@@ -333,11 +333,11 @@ def run(ctx, F, cg):
         gate = None
         for c in b.calls():
             if c.path in F.fns and b.local_ty(c.dest[0]) == "bool" and c.target is not None:
-                t = b.blocks[c.target]["t"]
-                if t[0] == "switch" and t[1][0] != "k" and t[1][1][0] == c.dest[0]:
+                sb_, t = b.switch_on(c.dest[0], c.target)
+                if t is not None:
                     false_t = [tgt for v, tgt in t[2] if v == "0"]
                     true_t = t[3]
-                    if false_t and i in b.reachable(true_t, avoid={c.target}) and i not in b.reachable(false_t[0], avoid={c.target}) and b.dominates(c.target, i):
+                    if false_t and i in b.reachable(true_t, avoid={sb_}) and i not in b.reachable(false_t[0], avoid={sb_}) and b.dominates(sb_, i):
                         # applied to the same string?
                         argl = set()
                         for a in c.args:
